@@ -275,7 +275,8 @@ impl StringGenerator {
                 sgr_tc.push(cur_fore_rgb.1);
                 sgr_tc.push(cur_fore_rgb.2);
             }
-            state.fg_idx = fg;
+            // the DOS colour code the terminal now has (SGR 1 later brightens *that* colour), not the palette slot
+            state.fg_idx = fore_idx.map_or(fg, |i| i as u32);
             state.fg = cur_fore_color;
         }
         if cur_back_rgb != state.bg.get_rgb() {
